@@ -5,8 +5,8 @@ from . import core
 def _all():
     from . import p_codec, p_worker, p_server, p_config, p_loop
     return [p_codec.C11(), p_codec.C10(), p_worker.C18(), p_worker.C01(), p_worker.C07(), p_worker.C08(),
-            p_worker.C02(), p_worker.C15(), p_worker.C16(),
-            p_server.C03(), p_server.C06(), p_server.C09(), p_server.C05(), p_config.C17(), p_loop.C04(), p_loop.C14()]
+            p_worker.C02(), p_worker.C15(), p_worker.C16(), p_worker.C13(),
+            p_server.C03(), p_server.C06(), p_server.C09(), p_server.C05(), p_server.C12(), p_config.C17(), p_loop.C04(), p_loop.C14()]
 
 
 def get(pid):
